@@ -114,7 +114,8 @@ class Recorder:
 
     def excluded_known(self, finding_id):
         """The case has the shape of an open known finding and was not judged."""
-        self.excluded[finding_id] += 1
+        if not self._excl:
+            self.excluded[finding_id] += 1
         self._excl = True
 
     def end(self, ok=True):
